@@ -5,6 +5,9 @@ mod kernel;
 mod models;
 
 use kernel::report::Tier;
+
+#[global_allocator]
+static GLOBAL: kernel::alloc::Counting = kernel::alloc::Counting;
 use kernel::sup;
 use std::collections::BTreeSet;
 
